@@ -6,14 +6,14 @@
    (AllowCommitUpto) / ODiscard (DiscardPrecommittedTxsSince) / OSetExt / OReopen (Close + Open) issued
    by any number of clients, i.e. every interleaving of the atomic sections. `read_tx s k` is what
    ReadTx(k) returns: the record found THROUGH the commit-log entry (offset, size) in the tx log.
-   H is ANY hash function; no collision assumption is used. Hypothesis 0 < c_maxactive is
+   H is ANY hash function; no collision assumption is used. The premise 0 < c_maxactive is
    Options.Validate (MaxActiveTransactions > 0). *)
 (* The refutations of the three full statements that the code as it stands violates are in
    coq/Hist/Refuted.v (blroot_refuted_witness, reopen_refuted_witness, ack_refuted_witness): witness
    executions evaluated with the executable SHA-256 (Coq's primitive 63-bit integers, hence not listed
    here where every theorem must be closed under the global context), replayed on the real store by
    the directed scripts of harness/c02 on every run (known findings). *)
-From V Require Import Hist.Machine Hist.Hist Hist.Theorems Hist.Refuted.
+From V Require Import Hist.Machine Hist.Hist Hist.Aht Hist.Theorems Hist.Refuted.
 
 (* Committed ids are exactly 1..committedTxID: every id in that range reads back a record carrying
    that id, id 0 and every id beyond the frontier read nothing. *)
@@ -53,6 +53,32 @@ Theorem C02_alh_chain_partial :
 Proof. exact alh_chain_links. Qed.
 Print Assumptions C02_alh_chain_partial.
 
+
+(* BlRoot clause of the chain, _partial form: in every execution WITHOUT a close/reopen (any
+   interleaving of commits, failed precommits, discards, allowance changes), a committed record with
+   BlTxID > 0 embeds the Merkle root (RFC 6962 shape, leaf = H(0x00|x), node = H(0x01|l|r): Merkle/Ref.v)
+   over the stored Alh values of transactions 1..BlTxID as a reader gets them. `alhs s n` is that list.
+   (With a reopen in between the statement is false on the code as it stands: blroot_refuted_witness.) *)
+Theorem C02_blroot_partial :
+  forall (H : bytes -> bytes) (c : cfg) (ops : list op) (k : N) (r : rec),
+  0 < c_maxactive c -> existsb is_reopen ops = false ->
+  let s := run H (init H c) ops in
+  1 <= k -> k <= s_committed s -> read_tx s k = Ok r -> 0 < h_bltxid (r_hdr r) ->
+  h_blroot (r_hdr r) = mth H (alhs s (h_bltxid (r_hdr r))).
+Proof. exact blroot_partial. Qed.
+Print Assumptions C02_blroot_partial.
+
+(* "Reported committed" from the caller's side, _partial form: in every execution WITHOUT
+   DiscardPrecommittedTxsSince, each commit call that has returned success (acked s: its id and the Alh
+   of the header it returned) returned the header of the committed transaction with that id.
+   (With a Discard the statement is false on the code as it stands: ack_refuted_witness.) *)
+Theorem C02_ack_is_history_partial :
+  forall (H : bytes -> bytes) (c : cfg) (ops : list op) (id : N) (alh : bytes),
+  0 < c_maxactive c -> existsb is_discard ops = false ->
+  let s := run H (init H c) ops in
+  In (id, alh) (acked s) -> exists r, read_tx s id = Ok r /\ r_alh r = alh.
+Proof. exact ack_partial. Qed.
+Print Assumptions C02_ack_is_history_partial.
 
 (* The state the store reports (CommittedAlh) is the id and the stored Alh of the last committed
    transaction (hash of the empty string for the empty store). *)
